@@ -68,3 +68,337 @@ Proof.
   intros q o. destruct (brun_counts o _ 0 _ (Nat.le_0_l 2) (one_put_per_path q o)) as (_ & P & G).
   destruct (takes o q); unfold nput, nget in P, G; simpl in P, G; lia.
 Qed.
+
+(* ------------------------------------------------------------------ 2. several requests, one pool *)
+
+Lemma nth_split_eq {A} : forall (l : list A) r x, nth_error l r = Some x ->
+  l = firstn r l ++ x :: skipn (S r) l.
+Proof.
+  induction l as [|y l IH]; intros r x H; destruct r; simpl in *; try discriminate.
+  - inversion H; reflexivity.
+  - f_equal. apply IH, H.
+Qed.
+
+Definition own1 (x : rq) : list nat := match r_st x, r_var x with 1, Some v => [v] | _, _ => [] end.
+
+Lemma owned_app : forall a b, owned (a ++ b) = owned a ++ owned b.
+Proof. intros; unfold owned; apply flat_map_app. Qed.
+
+Lemma owned_cons : forall x l, owned (x :: l) = own1 x ++ owned l.
+Proof. reflexivity. Qed.
+
+Lemma drop_nth_perm {A} : forall (l : list A) i v, nth_error l i = Some v ->
+  Permutation l (v :: drop_nth i l).
+Proof.
+  induction l as [|x r IH]; intros i v H; destruct i; simpl in *; try discriminate.
+  - inversion H; subst. apply Permutation_refl.
+  - apply perm_trans with (x :: v :: drop_nth i r); [apply perm_skip, IH, H|apply perm_swap].
+Qed.
+
+Section MachineProofs.
+  Variable o : obj.
+  Variable code : req -> list act.
+  Hypothesis code_ok : forall q, exists s', brun o 0 (code q) = Some s'.
+
+  Definition req_ok (x : rq) : Prop :=
+    (exists s', brun o (r_st x) (r_todo x) = Some s') /\ (r_st x = 1 -> exists v, r_var x = Some v).
+
+  Definition tinv (st : tstate) : Prop :=
+    NoDup (owned (t_reqs st) ++ t_pool st) /\
+    Forall (fun v => v < t_next st) (owned (t_reqs st) ++ t_pool st) /\
+    Forall req_ok (t_reqs st).
+
+  Lemma forall_set : forall (P : rq -> Prop) l r x x', nth_error l r = Some x ->
+    Forall P l -> P x' -> Forall P (set_req r x' l).
+  Proof.
+    intros P l r x x' N F Px. unfold set_req.
+    rewrite (nth_split_eq _ _ _ N) in F at 1.
+    apply Forall_app in F. destruct F as [FA FB]. inversion FB as [|? ? Hx HB].
+    apply Forall_app; split; [assumption|constructor; assumption].
+  Qed.
+
+  Lemma tstep_inv : forall st e, tinv st -> tinv (tstep o code st e).
+  Proof.
+    intros st e (ND & LT & OK). destruct e as [q|r pick]; cbn [tstep].
+    - (* a request arrives *)
+      unfold tinv; cbn [t_reqs t_pool t_next]. rewrite owned_app. cbn [owned flat_map r_st app]. rewrite app_nil_r.
+      repeat split; try assumption.
+      apply Forall_app; split; [assumption|]. constructor; [|constructor].
+      split; cbn [r_st r_todo r_var]; [apply code_ok|discriminate].
+    - destruct (nth_error (t_reqs st) r) as [x|] eqn:N; [|repeat split; assumption].
+      destruct (r_todo x) as [|a rest] eqn:T; [repeat split; assumption|].
+      pose proof (nth_split_eq _ _ _ N) as E.
+      assert (OKx : req_ok x).
+      { rewrite Forall_forall in OK. apply OK. eapply nth_error_In; eauto. }
+      destruct OKx as ((s' & BR) & VAR). rewrite T in BR. simpl in BR.
+      destruct (bstep o (r_st x) a) as [s1|] eqn:B; [|discriminate].
+      assert (OWN : owned (t_reqs st) = owned (firstn r (t_reqs st)) ++ own1 x ++ owned (skipn (S r) (t_reqs st))).
+      { rewrite E at 1. rewrite owned_app, owned_cons. reflexivity. }
+      assert (OWN' : forall x', owned (set_req r x' (t_reqs st)) =
+                                owned (firstn r (t_reqs st)) ++ own1 x' ++ owned (skipn (S r) (t_reqs st))).
+      { intros x'. unfold set_req. rewrite owned_app, owned_cons. reflexivity. }
+      set (A := owned (firstn r (t_reqs st))) in *. set (C := owned (skipn (S r) (t_reqs st))) in *.
+      destruct (is_get o a) eqn:IG.
+      + (* Get *)
+        destruct a as [o'|o'|o'|o']; try discriminate. simpl in IG. simpl in B. rewrite IG in B.
+        destruct (r_st x) as [|k] eqn:S0; [|discriminate]. inversion B; subst s1; clear B.
+        assert (O1 : own1 x = []) by (unfold own1; rewrite S0; reflexivity).
+        rewrite O1 in OWN. cbn [app] in OWN.
+        destruct (nth_error (t_pool st) pick) as [v|] eqn:PK; unfold tinv; cbn [t_reqs t_pool t_next];
+          rewrite OWN'; unfold own1 at 1; cbn [r_st r_var app].
+        * assert (P : Permutation (owned (t_reqs st) ++ t_pool st) ((A ++ v :: C) ++ drop_nth pick (t_pool st))).
+          { rewrite OWN. apply perm_trans with ((A ++ C) ++ v :: drop_nth pick (t_pool st)).
+            - apply Permutation_app_head, drop_nth_perm, PK.
+            - apply perm_trans with (v :: (A ++ C) ++ drop_nth pick (t_pool st)).
+              + apply Permutation_sym, Permutation_middle.
+              + rewrite <- !app_assoc. apply perm_trans with (v :: A ++ C ++ drop_nth pick (t_pool st)).
+                * apply Permutation_refl.
+                * cbn [app]. apply Permutation_middle. }
+          repeat split.
+          -- eapply Permutation_NoDup; eauto.
+          -- eapply Permutation_Forall; eauto.
+          -- eapply forall_set; eauto. split; cbn [r_st r_todo r_var]; eauto.
+        * assert (P : Permutation (t_next st :: owned (t_reqs st) ++ t_pool st) ((A ++ t_next st :: C) ++ t_pool st)).
+          { rewrite OWN. rewrite <- !app_assoc. cbn [app]. apply Permutation_middle. }
+          repeat split.
+          -- eapply Permutation_NoDup; [exact P|]. constructor; [|exact ND].
+             intro I. rewrite Forall_forall in LT. specialize (LT _ I). lia.
+          -- eapply Permutation_Forall; [exact P|]. constructor; [lia|].
+             eapply Forall_impl; [|exact LT]. simpl; intros; lia.
+          -- eapply forall_set; eauto. split; cbn [r_st r_todo r_var]; eauto.
+      + destruct (is_put o a) eqn:IP.
+        * (* Put *)
+          destruct a as [o'|o'|o'|o']; try discriminate. simpl in IP. simpl in B. rewrite IP in B.
+          destruct (r_st x) as [|[|k]] eqn:S0; try discriminate. inversion B; subst s1; clear B.
+          destruct (VAR eq_refl) as (v & Hv). rewrite Hv.
+          assert (O1 : own1 x = [v]) by (unfold own1; rewrite S0, Hv; reflexivity).
+          rewrite O1 in OWN.
+          unfold tinv; cbn [t_reqs t_pool t_next]. rewrite OWN'. unfold own1 at 1; cbn [r_st r_var app].
+          assert (P : Permutation (owned (t_reqs st) ++ t_pool st) ((A ++ C) ++ v :: t_pool st)).
+          { rewrite OWN. rewrite <- !app_assoc. cbn [app].
+            apply perm_trans with (v :: A ++ C ++ t_pool st); [apply Permutation_sym, Permutation_middle|].
+            apply perm_trans with (A ++ v :: C ++ t_pool st); [apply Permutation_middle|].
+            apply Permutation_app_head. apply Permutation_middle. }
+          repeat split.
+          -- eapply Permutation_NoDup; eauto.
+          -- eapply Permutation_Forall; eauto.
+          -- eapply forall_set; eauto. split; cbn [r_st r_todo r_var]; [eauto|discriminate].
+        * (* any other action: the life state does not change *)
+          assert (S1 : s1 = r_st x).
+          { destruct a as [o'|o'|o'|o']; simpl in *; try rewrite IG in B; try rewrite IP in B;
+              try (inversion B; reflexivity);
+              destruct (obj_eqb o o'); try (inversion B; reflexivity);
+              destruct (r_st x) as [|[|k]]; try discriminate; inversion B; reflexivity. }
+          subst s1.
+          unfold tinv; cbn [t_reqs t_pool t_next]. rewrite OWN'.
+          assert (O1 : own1 {| r_todo := rest; r_var := r_var x; r_st := r_st x |} = own1 x) by reflexivity.
+          rewrite O1, <- OWN.
+          repeat split; try assumption.
+          eapply forall_set; eauto. split; cbn [r_st r_todo r_var]; eauto.
+  Qed.
+
+  Lemma trun_inv : forall evs st, tinv st -> tinv (fold_left (tstep o code) evs st).
+  Proof. induction evs as [|e r IH]; intros st H; simpl; [exact H|apply IH, tstep_inv, H]. Qed.
+
+  Lemma tinit_inv : tinv tinit.
+  Proof. repeat split; simpl; constructor. Qed.
+
+  (* a request whose next action reads or writes memory of a pooled object owns that object *)
+  Lemma uses_owned : forall x, req_ok x -> now_uses o x = true -> r_st x = 1 /\ exists v, r_var x = Some v.
+  Proof.
+    intros x ((s' & BR) & VAR) U. unfold now_uses in U. destruct (r_todo x) as [|a rest]; [discriminate|].
+    simpl in BR. destruct (bstep o (r_st x) a) as [s1|] eqn:B; [|discriminate].
+    assert (S1 : r_st x = 1).
+    { destruct a as [o'|o'|o'|o']; simpl in U; try discriminate; simpl in B; rewrite U in B;
+        destruct (r_st x) as [|[|k]]; try discriminate; reflexivity. }
+    split; [exact S1|apply VAR, S1].
+  Qed.
+End MachineProofs.
+
+Lemma code_pd_ok : forall o q, exists s', brun o 0 (code_pd q) = Some s'.
+Proof. intros o q. eexists. apply one_put_per_path. Qed.
+
+Theorem pool_exclusive_paths : forall o evs,
+  let st := trun o code_pd evs in
+  NoDup (owned (t_reqs st) ++ t_pool st) /\
+  Forall (fun x => now_uses o x = true -> r_st x = 1 /\ exists v, r_var x = Some v /\ In v (owned (t_reqs st)))
+         (t_reqs st).
+Proof.
+  intros o evs st.
+  destruct (trun_inv o code_pd (code_pd_ok o) evs tinit (tinit_inv o)) as (ND & _ & OK). fold (trun o code_pd evs) in *.
+  fold st in ND, OK. split; [exact ND|].
+  rewrite Forall_forall in *. intros x I U.
+  destruct (uses_owned o x (OK x I) U) as (S1 & v & Hv).
+  split; [exact S1|]. exists v. split; [exact Hv|].
+  unfold owned. apply in_flat_map. exists x. split; [exact I|]. rewrite S1, Hv. left; reflexivity.
+Qed.
+
+Lemma nodup_app_l' {A} : forall a b : list A, NoDup (a ++ b) -> NoDup a.
+Proof.
+  induction a as [|x a IH]; intros b H; [constructor|]. simpl in H. inversion H as [|? ? NI ND]; subst.
+  constructor; [intro I; apply NI, in_or_app; left; exact I|eapply IH; exact ND].
+Qed.
+Lemma nodup_app_r' {A} : forall a b : list A, NoDup (a ++ b) -> NoDup b.
+Proof.
+  induction a as [|x a IH]; intros b H; [exact H|]. simpl in H. inversion H; subst. apply IH; assumption.
+Qed.
+
+(* two requests that own an object at the same time own different ones *)
+Theorem owners_distinct : forall o evs a x1 b x2 c v1 v2,
+  t_reqs (trun o code_pd evs) = a ++ x1 :: b ++ x2 :: c ->
+  r_st x1 = 1 -> r_var x1 = Some v1 -> r_st x2 = 1 -> r_var x2 = Some v2 -> v1 <> v2.
+Proof.
+  intros o evs a x1 b x2 c v1 v2 E S1 V1 S2 V2 EQ. subst v2.
+  destruct (pool_exclusive_paths o evs) as (ND & _). cbv zeta in ND. rewrite E in ND.
+  apply nodup_app_l' in ND. rewrite owned_app in ND. apply nodup_app_r' in ND.
+  rewrite owned_cons, owned_app, owned_cons in ND.
+  assert (O1 : own1 x1 = [v1]) by (unfold own1; rewrite S1, V1; reflexivity).
+  assert (O2 : own1 x2 = [v1]) by (unfold own1; rewrite S2, V2; reflexivity).
+  rewrite O1, O2 in ND. simpl in ND. inversion ND as [|? ? NI _]; subst. apply NI.
+  apply in_or_app; right; left; reflexivity.
+Qed.
+
+(* the seeded variant: a request that fails while reading its body puts its compressor back twice;
+   two later requests in flight own the same compressor *)
+Definition q_fail : req := {| q_limit := false; q_ctx := false; q_its := []; q_fin := FReadErr; q_store_ok := true |}.
+Definition q_good : req := {| q_limit := false; q_ctx := false; q_its := [true]; q_fin := FEnd; q_store_ok := true |}.
+Lemma double_put_refuted :
+  owned (t_reqs (trun OComp pd_m9 (TStart q_fail :: repeat (TStep 0 0) (length (pd_m9 q_fail)) ++
+                                   [TStart q_good; TStart q_good; TStep 1 0; TStep 2 0]))) = [0; 0] /\
+  brun OComp 0 (pd_m9 q_fail) = None.
+Proof. split; vm_compute; reflexivity. Qed.
+
+(* ------------------------------------------------------------------ 3. hand-over to the embedded store *)
+
+Definition comps (st : sstate) : list (nat * nat) := map snd (s_held st) ++ s_pool st.
+Definition cbufs (l : list (nat * nat)) : list nat := flat_map (fun c => [fst c; snd c]) l.
+
+Definition sinv (st : sstate) : Prop :=
+  Forall (fun c => fst c < s_next st /\ snd c < s_next st) (comps st) /\
+  Forall (fun e => snd (fst e) < s_next st /\ hget (s_heap st) (snd (fst e)) = snd e /\
+                   ~ In (snd (fst e)) (cbufs (comps st))) (s_queue st) /\
+  Forall (fun e => snd (fst e) = snd e) (s_index st).
+
+Lemma find_held_in {A} : forall r (h : list (nat * A)) c, find_held r h = Some c -> In c (map snd h).
+Proof.
+  induction h as [|[r' x] t IH]; intros c H; simpl in H; [discriminate|].
+  destruct (Nat.eqb r r'); [inversion H; left; reflexivity|right; apply IH, H].
+Qed.
+
+Lemma take_held_in {A} : forall r (h : list (nat * A)) c h', take_held r h = Some (c, h') ->
+  In c (map snd h) /\ incl (map snd h') (map snd h).
+Proof.
+  induction h as [|[r' x] t IH]; intros c h' H; simpl in H; [discriminate|].
+  destruct (Nat.eqb r r').
+  - inversion H; subst. split; [left; reflexivity|apply incl_tl, incl_refl].
+  - destruct (take_held r t) as [[y t']|] eqn:E; [|discriminate]. inversion H; subst.
+    destruct (IH _ _ eq_refl) as (I & IN). split; [right; exact I|].
+    simpl. intros z [->|Hz]; [left; reflexivity|right; apply IN, Hz].
+Qed.
+
+Lemma drop_nth_incl {A} : forall (l : list A) i, incl (drop_nth i l) l.
+Proof.
+  induction l as [|x r IH]; intros i; destruct i; simpl; try apply incl_refl.
+  - apply incl_tl, incl_refl.
+  - intros z [->|Hz]; [left; reflexivity|right; apply (IH i), Hz].
+Qed.
+
+Lemma cbufs_incl : forall a b, incl a b -> incl (cbufs a) (cbufs b).
+Proof.
+  intros a b H z I. unfold cbufs in *. apply in_flat_map in I. destruct I as (c & Ic & Iz).
+  apply in_flat_map. exists c. split; [apply H, Ic|exact Iz].
+Qed.
+
+Lemma cbufs_in : forall l c, In c l -> In (fst c) (cbufs l) /\ In (snd c) (cbufs l).
+Proof.
+  intros l c I. unfold cbufs. split; apply in_flat_map; exists c; (split; [exact I|simpl; auto]).
+Qed.
+
+Lemma forall_incl {A} (P : A -> Prop) : forall a b, incl a b -> Forall P b -> Forall P a.
+Proof. intros a b H F. rewrite Forall_forall in *. intros x I. apply F, H, I. Qed.
+
+(* the compressors of the new state are among those of the old one: ownership moved, memory did not *)
+Lemma sinv_moved : forall st st',
+  incl (comps st') (comps st) -> s_next st' = s_next st -> s_heap st' = s_heap st ->
+  s_queue st' = s_queue st -> s_index st' = s_index st -> sinv st -> sinv st'.
+Proof.
+  intros st st' IN EN EH EQ EI (A & B & C). unfold sinv. rewrite EN, EH, EQ, EI.
+  repeat split; [eapply forall_incl; eauto| |exact C].
+  eapply Forall_impl; [|exact B]. intros e (L & H & NI). repeat split; auto.
+  intro I. apply NI. eapply cbufs_incl; eauto.
+Qed.
+
+Lemma sstep_inv : forall st e, sinv st -> sinv (sstep true st e).
+Proof.
+  intros st e INV. destruct e as [r pick|r d m|r|r|]; cbn [sstep].
+  - (* Get *)
+    destruct (nth_error (s_pool st) pick) as [c|] eqn:PK.
+    + apply (sinv_moved st); auto. unfold comps; cbn [s_held s_pool map snd app].
+      intros z [->|Hz].
+      * apply in_or_app; right. eapply nth_error_In; eauto.
+      * apply in_app_or in Hz. apply in_or_app. destruct Hz as [Hz|Hz]; [left; exact Hz|right].
+        eapply drop_nth_incl; eauto.
+    + destruct INV as (A & B & C). unfold sinv, comps; cbn [s_held s_pool s_next s_heap s_queue s_index map app].
+      repeat split.
+      * constructor; [simpl; lia|]. eapply Forall_impl; [|exact A]. simpl; intros c (L1 & L2); lia.
+      * eapply Forall_impl; [|exact B]. intros e (L & H & NI). repeat split; [lia|exact H|].
+        cbn [cbufs flat_map fst snd app]. intros [E|[E|I]]; [lia|lia|apply NI, I].
+      * exact C.
+  - (* CompressDocsAndMetas *)
+    destruct (find_held r (s_held st)) as [[db mb]|] eqn:F; [|exact INV].
+    destruct INV as (A & B & C). unfold sinv, comps; cbn [s_held s_pool s_next s_heap s_queue s_index].
+    assert (IC : In (db, mb) (comps st)) by (apply in_or_app; left; eapply find_held_in; eauto).
+    destruct (cbufs_in _ _ IC) as (ID & IM). cbn [fst snd] in ID, IM.
+    repeat split; [exact A| |exact C].
+    eapply Forall_impl; [|exact B]. intros e (L & H & NI). repeat split; [exact L| |exact NI].
+    cbn [hget]. destruct (Nat.eqb db (snd (fst e))) eqn:E1; [apply Nat.eqb_eq in E1; subst; contradiction|].
+    destruct (Nat.eqb mb (snd (fst e))) eqn:E2; [apply Nat.eqb_eq in E2; subst; contradiction|]. exact H.
+  - (* StoreDocuments returns: docs block in the file, a COPY of the metas block queued *)
+    destruct (find_held r (s_held st)) as [[db mb]|] eqn:F; [|exact INV].
+    destruct INV as (A & B & C). unfold sinv, comps; cbn [s_held s_pool s_next s_heap s_queue s_index].
+    repeat split.
+    + eapply Forall_impl; [|exact A]. simpl; intros c (L1 & L2); lia.
+    + apply Forall_app; split.
+      * eapply Forall_impl; [|exact B]. intros e (L & H & NI). repeat split; [lia| |exact NI].
+        cbn [hget]. destruct (Nat.eqb (s_next st) (snd (fst e))) eqn:E1; [apply Nat.eqb_eq in E1; lia|exact H].
+      * constructor; [|constructor]. cbn [fst snd hget]. rewrite Nat.eqb_refl. repeat split; [lia|].
+        intro I. unfold cbufs in I. apply in_flat_map in I. destruct I as (c & Ic & Iz).
+        rewrite Forall_forall in A. destruct (A c Ic) as (L1 & L2). simpl in Iz. destruct Iz as [E|[E|[]]]; lia.
+    + exact C.
+  - (* Put *)
+    destruct (take_held r (s_held st)) as [[c h']|] eqn:T; [|exact INV].
+    apply (sinv_moved st); auto. unfold comps; cbn [s_held s_pool].
+    destruct (take_held_in _ _ _ _ T) as (Ic & IN).
+    intros z Hz. apply in_app_or in Hz. apply in_or_app. destruct Hz as [Hz|[->|Hz]]; auto.
+  - (* the index worker reads the oldest queued block *)
+    destruct (s_queue st) as [|[[blk b] snap] q'] eqn:Q; [exact INV|].
+    destruct INV as (A & B & C). rewrite Q in B. inversion B as [|? ? (L & H & NI) B']; subst.
+    unfold sinv, comps; cbn [s_held s_pool s_next s_heap s_queue s_index].
+    repeat split; [exact A|exact B'|].
+    apply Forall_app; split; [exact C|]. constructor; [|constructor]. exact H.
+Qed.
+
+Lemma sinit_inv : sinv sinit.
+Proof. repeat split; constructor. Qed.
+
+(* Whatever the requests do and whenever the index worker runs: what the worker reads from a queued metas block is what
+   the block contained when StoreDocuments returned — no later CompressDocsAndMetas of any request (same pooled
+   compressor or not) can change it. *)
+Theorem single_mode_private : forall evs,
+  Forall (fun e => snd (fst e) = snd e) (s_index (srun true evs)).
+Proof.
+  intros evs. assert (G : forall evs st, sinv st -> sinv (srun_from true st evs)).
+  { induction evs0 as [|e r IH]; intros st H; [exact H|]. simpl. apply IH, sstep_inv, H. }
+  destruct (G evs sinit sinit_inv) as (_ & _ & C). exact C.
+Qed.
+
+(* the shallow request copy: bulk 0's queued block aliases the pooled compressor's metaBuf; bulk 1 takes the same
+   compressor and compresses over it before the worker ran: bulk 0 is registered with bulk 1's IDs, so its own ID is
+   not found and bulk 1's ID fetches bulk 0's document *)
+Definition b0 : bulk := [([1%N], [100%N])].
+Definition b1 : bulk := [([2%N], [200%N])].
+Lemma shallow_refuted :
+  s_index (srun false (single_events [b0; b1] [true; true])) = [(0, [[2%N]], [[1%N]]); (1, [[2%N]], [[2%N]])] /\
+  single_fetch false [b0; b1] [true; true] = [[None]; [Some [100%N]]] /\
+  single_fetch true [b0; b1] [true; true] = [[Some [100%N]]; [Some [200%N]]].
+Proof. repeat split; vm_compute; reflexivity. Qed.
